@@ -23,9 +23,7 @@ def audit(m, tier):
         copy = os.path.join(scratch, "repo")
         shutil.copytree("/repo", copy, ignore=shutil.ignore_patterns(".git", "__pycache__", ".pytest_cache", ".benchmarks", "*.egg-info"))
         if "patch" in m:
-            p = run(["git", "apply", "--unsafe-paths", "-p1", "--directory", copy, os.path.join(ROOT, m["patch"])], cwd="/")
-            if p.returncode:
-                p = run(["patch", "-p1", "-d", copy, "-i", os.path.join(ROOT, m["patch"])])
+            p = run(["patch", "-p1", "-s", "-d", copy, "-i", os.path.join(ROOT, m["patch"])])
             if p.returncode:
                 return {"id": m["id"], "status": "patch-failed", "detail": p.stderr[-300:] + p.stdout[-300:]}
         else:
